@@ -11,18 +11,19 @@ import "github.com/gobuffalo/plush/v5/helpers/hctx"
 // than or equal to `size`, `trail` will be returned
 // completely as is. Defaults to a `trail` of `...`.
 func Truncate(s string, opts hctx.Map) string {
-	if opts["size"] == nil {
-		opts["size"] = 50
+	// an option that is missing, nil or of the wrong type falls back to its default
+	size, ok := opts["size"].(int)
+	if !ok {
+		size = 50
 	}
-	if opts["trail"] == nil {
-		opts["trail"] = "..."
+	trail, ok := opts["trail"].(string)
+	if !ok {
+		trail = "..."
 	}
 	runesS := []rune(s)
-	size := opts["size"].(int)
 	if len(runesS) <= size {
 		return s
 	}
-	trail := opts["trail"].(string)
 	runesTrail := []rune(trail)
 	if len(runesTrail) >= size {
 		return trail
